@@ -140,6 +140,19 @@ PROPS = {
         level_note='Trusted: refsem/template.rs (scanner shared with C20, indentation model transcribed from the module documentation of replacer/indent.rs and the property statement), bindings taken from the real match (judged by C02).',
         assumptions=['indentation clause restricted as in the statement (spaces only, no blank or under-indented continuation lines)'],
     ),
+    'C12': dict(
+        engines=[('vmon', 'c12')],
+        technique='runtime monitoring: generator-known consistency oracle (valid documents with exactly one perturbation) + reference template expansion for every accepted document',
+        rule=('valid rule documents are assembled from parts for 7 languages (pattern with two variables, optional utilities used through has/all/not, constraints, a chain of 0-3 transformations, a '
+              'rewriter + rewrite transform, string or object fix over all defined variables); then one of 16 perturbation classes is applied: variable in fix renamed (string / object form), transform '
+              'source undefined, constraints key undefined, referenced utility removed, rewriter removed, transform self-dependent / cyclic, utility requiring itself through matches / all / any / not / '
+              'nthChild.ofRule / mutually, every kind-giving atom removed (must be rejected), self-reference through has (either outcome). Unperturbed twins must load; every accepted document is run on '
+              'a matching source and generate_replacement must equal the reference expansion over captured and transformed values. Cyclic documents are never executed. '
+              'evaluations = documents. Non-trivial = distinct perturbed documents (classes are counted separately in the evidence).'),
+        floor={'quick': 2000, 'thorough': 100000},
+        level_text='Every perturbation class is exercised hundreds (quick) to thousands (thorough) of times with randomised surrounding parts; acceptance and the converse replacement clause are asserted per document.',
+        level_note='Trusted: the generator\'s knowledge of which perturbation is inconsistent (by construction), refsem/template.rs, transformed values as computed by the implementation (their arithmetic is C20\'s).',
+    ),
 }
 
 NOT_APPLICABLE = {}
